@@ -227,17 +227,12 @@ fn check_one(rep: &Report, ck: &str, c: &Case, params: &[Params]) -> CheckResult
     // ---- negative (iii): every integer leaf ----------------------------------------------------------
     let leaves = int_leaves(&pj);
     let edits = pick_edits(&leaves, c.leaf_edits, &mut st);
-    if c.leaf_edits == 0 || c.leaf_edits >= leaves.len() * 4 {
-        rep.exhaustive(format!("every integer leaf ({}) of a range proof x {{+1, -1, 0, sibling}}", leaves.len()));
+    if c.leaf_edits == 0 || c.leaf_edits >= leaves.len() * EDIT_KINDS as usize {
+        rep.exhaustive(format!("every integer leaf ({}) of a range proof x {{+1, -1, 0, sibling, high bit flipped, +2^k for k >= 128}}", leaves.len()));
     }
     for (li, e) in edits {
         let (path, val) = &leaves[li];
-        let nv = match e {
-            0 => (val + 1u32).complete(),
-            1 => (val - 1u32).complete(),
-            2 => Integer::new(),
-            _ => leaves[(li + 1) % leaves.len()].1.clone(),
-        };
+        let nv = edit_leaf(&leaves, li, e);
         if nv == *val {
             continue;
         }
@@ -245,7 +240,7 @@ fn check_one(rep: &Report, ck: &str, c: &Case, params: &[Params]) -> CheckResult
         set_leaf(&mut j2, path, &nv);
         let Ok(p2) = serde_json::from_value::<Boudot2000RangeProof>(j2) else { continue };
         rep.class_n("leaf-edits", 1);
-        let tag = ["+1", "-1", ":=0", ":=sibling"][e as usize];
+        let tag = EDIT_TAGS[e as usize];
         reject(&format!("altered-field:{}", generic_path(path)), ver(&p2, &p.g, &p.h, &p.n, &a, &b), format!("{} {}", path, tag))?;
     }
 
@@ -310,7 +305,7 @@ pub fn run(ctx: &Ctx, rep: &Report) -> Meta {
     Meta {
         rule: "modulus and bases from commitment keys over issuer moduli, issuer (a_0, b) pairs and a commitment key over its own modulus; intervals [a, b] with a in {0, 1, 2^257+1, random} and b - a in {1, 2, 3, 2^k (k = 1..256), 2^256-1, random}; \
                x in {a, a+1, mid, b-1, b, random}; positive: verify(prove(x)) true and the proof survives JSON; negative: (i) the honest prover on a-1, b+1, a-2^k, b+2^k, b+width yields no accepted proof (a panic counts as no proof), \
-               (ii) other bounds / exchanged or squared bases / other modulus, (iii) integer leaves perturbed by +1, -1, := 0, := sibling (sampled in quick, all leaves in thorough), \
+               (ii) other bounds / exchanged or squared bases / other modulus, (iii) integer leaves perturbed by +1, -1, := 0, := sibling, one high bit flipped, +2^k for k in {128, 160, 256, 300} (sampled in quick, all leaves in thorough), \
                (iv) transplant of the sub-proofs onto commitments to b+1, a far value, a random group element, the same value with other randomness, with and without overwriting the square proofs' E; \
                self-check: the harness' public recomputation reproduces the honest proof; non-trivial = outside the (interval, mid-range x) settings the crate uses itself; evaluations = verifier decisions"
             .into(),
